@@ -204,6 +204,7 @@ class C11(Prop):
                    'line-stage variants are only required to act on the line']
     quick_examples = 1500
     thorough_examples = 3000
+    fuzz_runs = 15000
     exhaustive_thorough = True
     floors = {'response': 0.15, 'bad_member': 0.06, 'shared_location': 0.08}
 
